@@ -99,4 +99,18 @@ PROPS = {
         trusted=["casbin (policy file parsing and matching)", "NATS per-connection per-subject FIFO delivery (used by the sentinel that flushes asynchronous publishes)"],
         timeout={"quick": 900, "thorough": 3600},
     ),
+    "C12": dict(
+        lean_modules=["Liftbridge.Props.C12"],
+        gen_sources=["server/groups.go", "server/metadata.go"],
+        go_pkg="./server", test="TestVerifC12",
+        level="proof",
+        assumptions=[
+            "a join of an id that already is a member never reaches the group: checkJoinConsumerGroupPreconditions (ErrConsumerAlreadyMember) runs on the metadata leader under the Raft barrier and apply lock before the op is proposed; AddMember itself does not check (harness probe documents what it does)",
+            "the subscriber heaps are abstracted to 'the minimum by (assignedCount, id) among the consumers in the heap': every Peek follows a heap.Init with no counter change in between and Less is a strict total order on distinct ids (lemmas less_*, peek_perm); validated against container/heap by the correspondence on every history",
+            "the partition count of a stream is a parameter that does not change while the stream has subscribers (streams are only deleted and re-created; deletion unsubscribes everybody when StreamDeleted is delivered in order)",
+            "a consumer's liveness expiry is a LeaveConsumerGroup op (removeConsumerGroupMember) and is covered as a leave",
+            "one group; the group mutex makes every op atomic",
+        ],
+        trusted=["container/heap and Go map semantics below the modelled set/minimum abstraction", "hashicorp/raft: one totally ordered log applied in order on every server"],
+    ),
 }
